@@ -156,6 +156,44 @@ Theorem C15_globcache_not_runnable_outside_domain : forall size p,
 Proof. exact not_runnable_outside_domain. Qed.
 Print Assumptions C15_globcache_not_runnable_outside_domain.
 
+(* Degenerate option values (empty, blanks, separators or quotes only, arbitrary bytes,
+   malformed numbers ...), as far as the model carries load(): ParseFlags never panics
+   whatever the raw values and whatever the typed values reject (C15_never_panics, for every
+   [bad]); parseKVSlice never panics (C15_kvslice_never_panics) and returns no map for
+   separators-only input; the ui.addr block of load() then returns the "only one listener"
+   error and never indexes the empty list.  The rest of load()'s post-processing (parseListen,
+   parseCertSource, go-sockaddr templates, regexp.Compile, strconv in the typed values) is
+   NOT modelled: "never panics" for it is tied only by the degenerate-value class of the
+   correspondence run (every option x ~15-30 degenerate values x every source). *)
+Theorem C15_load_never_panics_on_degenerate_values :
+  (forall flags bad args environ prefixes props,
+      parse_flags flags bad args environ prefixes props <> Panic) /\
+  (forall v, good (parse_kvslice v)) /\
+  (forall v, ui_addr_step v <> Panic) /\
+  (forall v, Forall (fun c => c = 44 \/ c = 59) v -> parse_kvslice v = KOk []) /\
+  (forall v, v <> [] -> parse_kvslice v = KOk [] -> ui_addr_step v = Err 2).
+Proof.
+  exact (conj parse_flags_never_panics
+        (conj parse_kvslice_total
+        (conj ui_addr_step_never_panics
+        (conj parse_kvslice_separators_only ui_addr_step_no_listener)))).
+Qed.
+Print Assumptions C15_load_never_panics_on_degenerate_values.
+
+(* Finding F-C15-3 (open): for a raw value the option's type rejects, the verdict depends on
+   the source -- the command line fails (usage error), the environment and the file call
+   Value.Set, drop its error (flagset.go:134,145), leave in the option whatever the failed Set
+   left (the zero value for the stdlib types) and count the option as set.  Witness: proxy.maxconn = abc.  Outside that region (every value the command line
+   carries is accepted: parse_args = Ok) C15_source_equivalence holds. *)
+Theorem C15_illformed_value_source_dependent_refuted :
+  parse_flags maxconn_flags abc_is_bad [bs "-proxy.maxconn=abc"] [] fabio_prefixes None = Err 1 /\
+  parse_flags maxconn_flags abc_is_bad [] [bs "FABIO_PROXY_MAXCONN=abc"] fabio_prefixes None
+  = Ok [{| r_name := bs "proxy.maxconn"; r_set := true; r_calls := [bs "abc"]; r_src := SrcEnv 0 |}] /\
+  parse_flags maxconn_flags abc_is_bad [] [] fabio_prefixes (Some [(bs "proxy.maxconn", bs "abc")])
+  = Ok [{| r_name := bs "proxy.maxconn"; r_set := true; r_calls := [bs "abc"]; r_src := SrcProps |}].
+Proof. exact illformed_value_source_dependent. Qed.
+Print Assumptions C15_illformed_value_source_dependent_refuted.
+
 (* Load keeps no state between calls (model: a history of Loads is the list of the single
    Loads): the result for an input is the single-Load result whatever was loaded before,
    and the results of earlier Loads are unchanged by later ones.  Tied to the code by the
